@@ -76,7 +76,14 @@ func runC05(c c05Case) (violation string, nontrivial bool, labels []string) {
 	I := func(s string) sdkmath.Int { v, _ := sdkmath.NewIntFromString(s); return v }
 	joined, exited := false, false
 	fractional := false
+	// the keeper hands the pool as it was at the start of the block ("snapshot") to join/swap math; an
+	// operation later in the same block therefore sees a snapshot that differs from the live pool
+	blockSnap := clonePool(p)
 	for i, op := range c.Ops {
+		if op.Kind == "new-block" {
+			blockSnap = clonePool(p)
+			continue
+		}
 		before := clonePool(p)
 		totalBefore := before.TotalShares.Amount
 		valBefore := poolValue(&before, orc)
@@ -100,7 +107,7 @@ func runC05(c c05Case) (violation string, nontrivial bool, labels []string) {
 				shares sdkmath.Int
 			}
 			r, err := safely(func() (jr, error) {
-				snap := clonePool(p)
+				snap := clonePool(blockSnap)
 				tj, n, _, _, err := p.JoinPool(ctx, &snap, orc, acc, tokensIn, params)
 				return jr{tj, n}, err
 			})
@@ -148,7 +155,7 @@ func runC05(c c05Case) (violation string, nontrivial bool, labels []string) {
 				shares sdkmath.Int
 			}
 			r, err := safely(func() (jr, error) {
-				snap := clonePool(p)
+				snap := clonePool(blockSnap)
 				tj, n, _, _, err := p.JoinPool(ctx, &snap, orc, acc, tokensIn, params)
 				return jr{tj, n}, err
 			})
@@ -362,7 +369,11 @@ func TestC05(t *testing.T) {
 				}
 				op = c05Op{Kind: "exit-single", Shares: s.String(), Denom: d}
 			default:
-				op = c05Op{Kind: "exit-all", Shares: sdkmath.NewInt(int64(1 + UniformDraw(rt, "tiny", 1000))).String()}
+				if UniformDraw(rt, "newblock", 2) == 0 {
+					op = c05Op{Kind: "new-block"}
+				} else {
+					op = c05Op{Kind: "exit-all", Shares: sdkmath.NewInt(int64(1 + UniformDraw(rt, "tiny", 1000))).String()}
+				}
 			}
 			c.Ops = append(c.Ops, op)
 			// advance the tracking pool the same way (ignore failures)
